@@ -22,6 +22,7 @@ use std::env;
 use std::io::Write;
 use std::sync::Arc;
 
+use lineread::terminal::DefaultTerminal;
 use lineread::{Command, Interface, ReadResult};
 
 #[macro_use]
@@ -48,6 +49,24 @@ mod signals;
 mod types;
 #[cfg(cicada_verif)]
 mod verif;
+
+/// The line reader with cicada's key bindings, highlighter, history and
+/// completer set up.
+fn new_interface(sh: &shell::Shell) -> std::io::Result<Interface<DefaultTerminal>> {
+    let mut rl = Interface::new("cicada")?;
+
+    rl.define_function("enter-function", Arc::new(prompt::EnterFunction));
+    rl.bind_sequence("\r", Command::from_str("enter-function"));
+
+    let highlighter = highlight::create_highlighter();
+    rl.set_highlighter(highlighter);
+
+    history::init(&mut rl);
+    rl.set_completer(Arc::new(completers::CicadaCompleter {
+        sh: Arc::new(sh.clone()),
+    }));
+    Ok(rl)
+}
 
 // #[allow(clippy::cast_lossless)]
 fn main() {
@@ -96,7 +115,7 @@ fn main() {
     }
 
     let mut rl;
-    match Interface::new("cicada") {
+    match new_interface(&sh) {
         Ok(x) => rl = x,
         Err(e) => {
             // non-tty will raise errors here
@@ -104,17 +123,6 @@ fn main() {
             return;
         }
     }
-
-    rl.define_function("enter-function", Arc::new(prompt::EnterFunction));
-    rl.bind_sequence("\r", Command::from_str("enter-function"));
-
-    let highlighter = highlight::create_highlighter();
-    rl.set_highlighter(highlighter);
-
-    history::init(&mut rl);
-    rl.set_completer(Arc::new(completers::CicadaCompleter {
-        sh: Arc::new(sh.clone()),
-    }));
 
     let sig_handler_enabled = tools::is_signal_handler_enabled();
     if sig_handler_enabled {
@@ -206,6 +214,15 @@ fn main() {
             }
             Err(e) => {
                 println_stderr!("readline error: {}", e);
+                if e.kind() == std::io::ErrorKind::InvalidData {
+                    // bytes that do not decode (e.g. a multi-byte character
+                    // typed ahead and half erased by the terminal driver)
+                    // stay in the line reader's input buffer and would fail
+                    // every later read as well: go on with a fresh reader.
+                    if let Ok(x) = new_interface(&sh) {
+                        rl = x;
+                    }
+                }
                 // There maybe other reason of this Err, but possibly it occurs
                 // in cases we give term to a child, and it stops, and we
                 // didn't have term back to shell in waitpid places. Here
